@@ -2,7 +2,7 @@
    the answer is [model observation; spec observation]. *)
 From Coq Require Import List ZArith Bool.
 Import ListNotations.
-From Verif Require Import Val CounterSyntax ClassCounters Counters NumberingSpec.
+From Verif Require Import Val CounterSyntax FormatParse ClassCounters Counters NumberingSpec.
 Local Open Scope Z_scope.
 
 Definition get_opt_name (v : val) : option (option name) :=
@@ -66,6 +66,22 @@ Definition spec_obs (cls depth : Z) (es : list event) : val :=
 
 Definition run_case (v : val) : val :=
   match v with
+  | VL [VI 101; VI trim; fs] =>      (* a format string given to context.newcounter('zz', format=..., trimLeft=...) in a book *)
+      match getZs fs with
+      | Some s =>
+          let zz := [122; 122] in
+          let ms0 := init_state 1 in
+          let st := setcounter [101; 113; 117; 97; 116; 105; 111; 110] 12
+                      (setcounter [115; 101; 99; 116; 105; 111; 110] 3 (setcounter [99; 104; 97; 112; 116; 101; 114] 2 (m_counters ms0))) in
+          let ms1 := newcounter zz None (parse_format s) (negb (trim =? 0)) (with_counters ms0 st) in
+          let ms2 := with_counters ms1 (setcounter zz 7 (m_counters ms1)) in
+          match the_of ms2 zz with
+          | Ok t => VL [VI 0; ofZs t]
+          | Crash k => v_crash k
+          | Fuel => v_outoffuel
+          end
+      | None => v_bad_input
+      end
   | VL [VI cls; VI depth; VL evs] =>
       match mapM get_event evs with
       | Some es => VL [model_obs cls depth es; spec_obs cls depth es]
